@@ -468,6 +468,12 @@ pub fn render_start_tag_sep(b: &BlockSpec, first_sep: char) -> String {
 /// the same (name, value): an unquoted value (letters, digits, `-`, `_` only), single quotes, a
 /// bare name for an empty value, blanks around `=`, several blanks or a TAB between attributes.
 pub fn render_start_tag_spelled(b: &BlockSpec, first_sep: char, spelling: u64) -> String {
+    render_start_tag_laid_out(b, first_sep, spelling, false)
+}
+
+/// `multiline`: the blanks between attributes may be line breaks (only where the comment that
+/// holds the tag can span several lines).
+pub fn render_start_tag_laid_out(b: &BlockSpec, first_sep: char, spelling: u64, multiline: bool) -> String {
     let mut s = String::from("<block");
     if b.attrs.is_empty() && first_sep != ' ' {
         s.push(first_sep);
@@ -482,7 +488,9 @@ pub fn render_start_tag_spelled(b: &BlockSpec, first_sep: char, spelling: u64) -
             continue;
         }
         match (i, rng.below(6)) {
+            (0, 2 | 3) if multiline => s.push_str("\n    "),
             (0, _) => s.push(first_sep),
+            (_, 2 | 3) if multiline => s.push_str("\n    "),
             (_, 0) => s.push_str("  "),
             (_, 1) => s.push('\t'),
             _ => s.push(' '),
@@ -550,6 +558,9 @@ pub struct BlockLayout {
     pub content: String,
     pub attrs: Vec<(String, String)>,
     pub has_children: bool,
+    /// Lines the comment with the start tag spans (1 unless the tag is written over several
+    /// lines of a block comment); the content starts behind the last of them.
+    pub tag_lines: usize,
 }
 
 impl BlockLayout {
@@ -558,6 +569,10 @@ impl BlockLayout {
             .iter()
             .find(|(k, _)| k == name)
             .map(|(_, v)| v.as_str())
+    }
+    /// Whether rendered line `l` belongs to the comment that holds the start tag.
+    pub fn is_start_tag_line(&self, l: usize) -> bool {
+        self.start_line <= l && l < self.start_line + self.tag_lines
     }
     pub fn name_display(&self) -> &str {
         self.attr("name").unwrap_or("(unnamed)")
@@ -577,6 +592,11 @@ pub struct RenderedFile {
 pub const POISON_TAIL: &str = "<block name=\"poison-unclosed\" keep-sorted=\"asc\">";
 
 /// Wraps a tag in a comment of the file's language.
+/// Whether the comment `comment()` would write at this place can span several lines.
+fn comment_is_block(leader: &str, block_comments: u64, nth: usize) -> bool {
+    leader == "<!--" || (block_comments != 0 && leader == "//" && crate::rng::mix_n(block_comments, nth as u64) % 4 != 0)
+}
+
 fn comment(leader: &str, block_comments: u64, nth: usize, tag: &str) -> String {
     if leader == "<!--" {
         return format!("<!-- {tag} -->");
@@ -608,12 +628,19 @@ fn render_block(
     } else {
         idx_path.iter().fold(spelling, |a, i| crate::rng::mix_n(a, *i as u64 + 1)) | 1
     };
-    lines.push(comment(
+    let multiline = spell != 0
+        && comment_is_block(leader, block_comments, lines.len())
+        && crate::rng::mix_n(spell, 5) % 2 == 0;
+    let tag_comment = comment(
         leader,
         block_comments,
         lines.len(),
-        &render_start_tag_spelled(b, if tab_tags { '\t' } else { ' ' }, spell),
-    ));
+        &render_start_tag_laid_out(b, if tab_tags { '\t' } else { ' ' }, spell, multiline),
+    );
+    let tag_lines = tag_comment.split('\n').count();
+    for l in tag_comment.split('\n') {
+        lines.push(l.to_string());
+    }
     out.push(BlockLayout {
         path: idx_path.clone(),
         start_line,
@@ -621,6 +648,7 @@ fn render_block(
         content: String::new(),
         attrs: b.attrs.clone(),
         has_children: !b.children.is_empty(),
+        tag_lines,
     });
     for l in &b.lines {
         lines.push(l.clone());
@@ -637,7 +665,7 @@ fn render_block(
     lines.push(comment(leader, block_comments, lines.len(), render_end_tag_spelled(spell)));
     // content = "\n" + every line strictly between the tags, each followed by "\n"
     let mut content = String::from("\n");
-    for l in &lines[start_line..end_line - 1] {
+    for l in &lines[start_line + tag_lines - 1..end_line - 1] {
         content.push_str(l);
         content.push('\n');
     }
